@@ -24,10 +24,54 @@ func listStr(l []string) string {
 
 // ---------- LEX ----------
 
+// Lexer plugins written against the exported lexer API only (CurrentChar, PeekChar, ReadChar, NewToken, NewTokenAt):
+//
+//	newTokenPlugin     builds the tokens for the characters @ # ^ ~ ? itself, exactly as the built-in lexer
+//	                   would (an ILLEGAL one-character token) — so a lexer with it is the lexer
+//	                   without it;
+//	blockCommentPlugin skips `/* … */` and the blanks behind it before handing over to the next stage (the model's
+//	                   driver does the same on its side).
+func newTokenPlugin(l *lexer.Lexer, next func() token.Token) token.Token {
+	switch ch := l.CurrentChar; ch {
+	case '@', '#', '^', '~', '?':
+		tok := l.NewToken(token.ILLEGAL, string(ch))
+		l.ReadChar()
+		return tok
+	}
+	return next()
+}
+
+func blockCommentPlugin(l *lexer.Lexer, next func() token.Token) token.Token {
+	for l.CurrentChar == '/' && l.PeekChar() == '*' {
+		l.ReadChar()
+		l.ReadChar()
+		for l.CurrentChar != 0 && !(l.CurrentChar == '*' && l.PeekChar() == '/') {
+			l.ReadChar()
+		}
+		if l.CurrentChar != 0 {
+			l.ReadChar()
+			l.ReadChar()
+		}
+		for l.CurrentChar == ' ' || l.CurrentChar == '\t' {
+			l.ReadChar()
+		}
+	}
+	return next()
+}
+
+// doLex: extra = 100*plugin + number of extra requests after the end (plugin 0 none, 1 newTokenPlugin, 2 blockCommentPlugin)
 func doLex(src string, extra int) string {
 	var items []string
 	var pre string
+	plugin := extra / 100
+	extra %= 100
 	lb := lexer.NewBuilder()
+	switch plugin {
+	case 1:
+		lb.UseTokenInterceptor(newTokenPlugin)
+	case 2:
+		lb.UseTokenInterceptor(blockCommentPlugin)
+	}
 	// a pass-through token interceptor records where the lexer stands when the token is produced
 	lb.UseTokenInterceptor(func(l *lexer.Lexer, next func() token.Token) token.Token {
 		pre = fmt.Sprintf("%d:%d:%d", l.Line, l.Column, l.CurrentChar)
